@@ -243,6 +243,8 @@ pub async fn try_init_case(bytes: Vec<u8>, st: &mut St, label: &str) {
         }
     }
     let req = format!("try-init {}", h::hex(&bytes));
+    // announced first: if the process dies (abort) the orchestrator knows on which input
+    println!("TRY\t{}", req);
     let b2 = bytes.clone();
     let res = tokio::spawn(async move {
         match Archive::try_init(IoReader::new(Cursor::new(b2))).await {
